@@ -53,7 +53,8 @@ ValueClauses(c) ==
             \A i \in 1..m : \A j \in 1..D : \A k \in 1..Len(c.obs[i].ins[j]) :
                LET notS == S!NotInS(Feat, order(i), j)  inp == c.obs[i].ins[j][k] IN
                /\ S!OutsideOK(c.obs[i].x, inp, notS)
-               /\ S!JointOK(c.obs[i].x, inp, notS, c.background))
+               /\ (IF Tr.strategy = "product" THEN S!ProductOK(c.obs[i].x, inp, notS, c.background)
+                   ELSE S!JointOK(c.obs[i].x, inp, notS, c.background)))
       /\ c.exact =>
            /\ Ck("batch.per_feature", \A f \in Feat : vals[f] = B!BatchValues(Feat, contribs)[f])
            /\ Ck("batch.efficiency",
